@@ -164,7 +164,7 @@ def tree(schema, type_name, sizer=lambda n: 'num_of_' + n):
             return {'k': 'byte'}
         return {'k': 'prim', 'p': d}
     if isinstance(d, Enum):
-        return {'k': 'enum', 'name': d.name, 'es': [[n, eval_size(schema, v) % (1 << 32)] for n, v in d.members]}
+        return {'k': 'enum', 'name': d.name, 'es': [[n, eval_size(schema, v)] for n, v in d.members]}
     if isinstance(d, Union):
         return {'k': 'union', 'name': d.name,
                 'arms': [{'n': n, 'd': eval_size(schema, disc), 't': tree(schema, t, sizer)} for n, disc, t in d.arms]}
